@@ -244,38 +244,41 @@ Definition with_scen (args : list bytes) (f : scen -> bool -> bytes) : bytes :=
   end.
 
 (* CheckStateResponse: A, S = raw auth / state lists *)
-Definition run_csr (args : list bytes) : bytes :=
-  with_scen args (fun s alt =>
+Definition out_csr (s : scen) (al : event -> list event -> bool) : bytes :=
     let U := s_univ s in
-    match check_state_response pstate (sig_inst s) (allowed_inst s alt) (pcall_inst s)
+    match check_state_response pstate (sig_inst s) al (pcall_inst s)
             (s_gfuel s) (s_hasprov s) (dec_items U (jfield "A" (s_json s)))
             (dec_items U (jfield "S" (s_json s))) (init_ps s) with
     | (CsrOk a st, ps) => bs "ok a=" ++ p_ids a ++ bs " s=" ++ p_ids st ++ p_log_of ps
     | (CsrOutOfFuel, _) => out_of_fuel
     | (_, ps) => bs "err" ++ p_log_of ps
-    end).
+    end.
+Definition run_csr (args : list bytes) : bytes :=
+  with_scen args (fun s alt => out_csr s (allowed_inst s alt)).
 
 (* CheckSendJoinResponse: additionally J = uid of the join event *)
-Definition run_sj (args : list bytes) : bytes :=
-  with_scen args (fun s alt =>
+Definition out_sj (s : scen) (al : event -> list event -> bool) : bytes :=
     let U := s_univ s in
-    match check_send_join pstate (sig_inst s) (allowed_inst s alt) (pcall_inst s)
+    match check_send_join pstate (sig_inst s) al (pcall_inst s)
             (s_gfuel s) (s_hasprov s) (dec_items U (jfield "A" (s_json s)))
             (dec_items U (jfield "S" (s_json s))) (ev_of U (jN (jfield "J" (s_json s)))) (init_ps s) with
     | (SjOk a st, ps) => bs "ok a=" ++ p_ids a ++ bs " s=" ++ p_ids st ++ p_log_of ps
     | (SjOutOfFuel, _) => out_of_fuel
     | (_, ps) => bs "err" ++ p_log_of ps
-    end).
+    end.
+Definition run_sj (args : list bytes) : bytes :=
+  with_scen args (fun s alt => out_sj s (allowed_inst s alt)).
 
 (* VerifyEventAuthChain: E = uid of the event *)
-Definition run_chain (args : list bytes) : bytes :=
-  with_scen args (fun s alt =>
-    match verify_event_auth_chain pstate (allowed_inst s alt) (pcall_inst s)
+Definition out_chain (s : scen) (al : event -> list event -> bool) : bytes :=
+    match verify_event_auth_chain pstate al (pcall_inst s)
             (s_fuel s) (s_gfuel s) (ev_of (s_univ s) (jN (jfield "E" (s_json s)))) (init_ps s) with
     | (ChainOk, ps) => bs "ok" ++ p_log_of ps
     | (ChainOutOfFuel, _) => out_of_fuel
     | (_, ps) => bs "err" ++ p_log_of ps
-    end).
+    end.
+Definition run_chain (args : list bytes) : bytes :=
+  with_scen args (fun s alt => out_chain s (allowed_inst s alt)).
 
 (* VerifyAuthRulesAtState: E, av = allowValidation, sp = state provider script *)
 Definition run_vras (args : list bytes) : bytes :=
